@@ -999,6 +999,19 @@ static int rtr_update_spki_table(struct rtr_socket *rtr_socket, struct spki_tabl
 	return RTR_SUCCESS;
 }
 
+/*
+ * @brief Checks that the prefix length and the max length of a Prefix PDU fit the address family.
+ * Larger values would be used as bit counts by the prefix table.
+ */
+static bool rtr_prefix_pdu_lengths_valid(const void *pdu, const enum pdu_type type)
+{
+	// both prefix PDU types have the length fields at the same position
+	const struct pdu_ipv4 *prefix_pdu = pdu;
+	const uint8_t addr_bits = (type == IPV4_PREFIX) ? 32 : 128;
+
+	return prefix_pdu->prefix_len <= addr_bits && prefix_pdu->max_prefix_len <= addr_bits;
+}
+
 void recv_loop_cleanup(void *p)
 {
 	struct recv_loop_cleanup_args *args = p;
@@ -1052,6 +1065,17 @@ static int rtr_sync_receive_and_store_pdus(struct rtr_socket *rtr_socket)
 		}
 
 		type = rtr_get_pdu_type(pdu);
+		if ((type == IPV4_PREFIX || type == IPV6_PREFIX) && !rtr_prefix_pdu_lengths_valid(pdu, type)) {
+			const char txt[] = "Prefix PDU with a prefix length exceeding the address size received";
+
+			RTR_DBG("%s", txt);
+			rtr_send_error_pdu_from_host(rtr_socket, pdu, ((struct pdu_header *)pdu)->len, CORRUPT_DATA, txt,
+						     sizeof(txt));
+			rtr_change_socket_state(rtr_socket, RTR_ERROR_FATAL);
+			retval = RTR_ERROR;
+			goto cleanup;
+		}
+
 		if (type == IPV4_PREFIX) {
 			if (rtr_store_prefix_pdu(rtr_socket, pdu, sizeof(*ipv4_pdus), (void **)&ipv4_pdus,
 						 &ipv4_pdus_nindex, &ipv4_pdus_size) == RTR_ERROR) {
